@@ -839,12 +839,14 @@ def Array(
                 if _length is None:
                     return cls._decode_all(stream)
 
-                if isinstance(_length, DataType):
+                if isinstance(_length, DataType) or (
+                    isinstance(_length, type) and issubclass(_length, DataType)
+                ):
                     _len = _length.decode(stream)
                 else:
                     _len = _length
 
-                _val = [cls.element_type.decode(stream) for _ in range(_length)]
+                _val = [cls.element_type.decode(stream) for _ in range(_len)]
 
                 if issubclass(cls.element_type, BitArrayType):
                     return list(chain.from_iterable(_val))
